@@ -105,6 +105,52 @@ check('C14', 'specs/Reserve.tla + specs/ReserveTrace.tla + harness/c14_reserve.p
       'the transaction with its inputs as wallet sync does; sqlite transaction isolation.',
       'TLC exhaustive model with negative control + TLC trace validation of concurrent real builds', 'DESIGN.md 5/C14')
 
+check('C03', 'specs/TxFund.tla + specs/MCTxFund.tla + specs/TxFundTrace.tla + harness/c03_txfund.py',
+      'Leg A: TLC explores TxFund.tla - the five-round balancing loop of Transaction.create with DECLARATIVE coin selection (any set of '
+      'useful unreserved coins covering the deficit), scaled constants - on two instances (coins around every threshold with payments and '
+      'pre-chosen inputs; coins barely worth their fee with nothing requested, reaching five rounds) against Conservation, FeeLower, '
+      'FeeUpper <= 5(coc+1)+dust (a tighter bound is refuted as a negative control), SingleChange, HonestRefusal. Leg C: 500 (6000) seeded '
+      'real Transaction.create calls on a real ledger / sqlite database / two accounts (0-12, sometimes 80/250 coins around the input fee, '
+      'dust and up to 1.5 LBC, mixed confirmation and ownership, some reserved; payments, claims with and without name fee, supports, '
+      'purchases; pre-chosen inputs; fee rates 1/50/200; every strategy; totals just below/at/above what is spendable; directed dust and '
+      '1..9-dewies-deficit cases) are logged and every outcome is judged by TLC against TxFundTrace.tla: outputs preserved, inputs legit and '
+      'distinct, conservation, fee at least the signed byte/name fee and at most the bound above it, one change output on the change chain, '
+      'honest refusal, no other failure, nothing left reserved after a failure.',
+      'Trusted: sums below 2^31 dewies (64-bit range is C05); selection itself is not judged (only its legitimacy); a refusal is judged with a '
+      'tolerance of one change-output cost; branch_and_bound as the only strategy judged on <=12 coins with a requested output.',
+      'TLC model of the balancing loop with declarative selection + TLC validation of real create() outcomes', 'DESIGN.md 5/C03')
+
+check('C02', 'specs/Stream.tla + harness/c02_stream.py',
+      'TLC checks Stream.tla exhaustively with scaled constants (BS=4, CH=11, every file length 1..36, every single-field/order/terminator/JSON '
+      'tamper of every blob, each also with a recomputed stream hash; blob-size law, reassembly, numbering, terminator, Load accepts iff '
+      'Consistent, every tamper refused, structure refused even when recommitted), with an off-by-one negative control, then re-runs the model '
+      'with the real constants over the rescaled size classes and emits every case. Each PUB case is a real file published by '
+      'StreamDescriptor.create_stream under the deterministic loop: blob count/lengths/numbering/<=2 MiB must equal the prediction, every SHA-384 '
+      'commitment (blob names, stream hash, sd hash) is recomputed with hashlib by interpreting the specification\'s hash terms, and all blobs are '
+      'decrypted in descriptor order with the real blob.decrypt and compared byte for byte. Each TAM case is the tampered descriptor made concrete, '
+      'written as a new sd blob named by its own hash and loaded with the real from_stream_descriptor_blob: it must be refused exactly where Load '
+      'refuses. Each NAME case (all token sequences up to 4 (6) over an 11-token grammar) goes through the real sanitize_file_name.',
+      'Trusted: SHA-384 collision resistance (symbolic injective hash); AES-CBC/PKCS7 itself is not modelled (the real decrypt is the oracle); '
+      'refused = no descriptor returned; control character = U+0000-U+001F (DESIGN 8). Two-field edits that shift characters across the '
+      'un-delimited hash concatenation, a length re-typed as a JSON string and the uncommitted stream_type are accepted by the loader and are '
+      'recorded but not judged (outside the single-field quantifier).',
+      'case-analytic TLA+ spec with symbolic hash terms; TLC-enumerated publish/tamper/name cases replayed into the real code', 'DESIGN.md 5/C02')
+
+check('C08', 'specs/Merkle.tla + harness/c08_merkle.py',
+      'TLC enumerates, as initial states of Merkle.tla, every block of n = 1..32 transactions (thorough: 1..64 exhaustively plus 127..129), every '
+      'index, every home height of a 4-header chain with every claimed height -2..6, and every single mutation of the genuine proof (each branch '
+      'element replaced, each position bit flipped incl. above the branch, each element dropped, a hash inserted/appended at every level, another or '
+      'a one-bit-altered transaction, the answer without merkle), over Bitcoin\'s Merkle tree with a symbolic injective pairing and the '
+      'duplicate-last-node rule. On every case TLC checks soundness, completeness, no-header-never-verified and an exact characterisation of which '
+      'mutations can still fold to the root, and emits the verdict computed by a line-by-line transcription of maybe_verify_transaction. Every '
+      'emitted case (53 k quick / 316 k thorough) is executed three ways on the real Ledger (proof passed in, fetched via network.get_merkle, and '
+      'through request_transactions) with real Transaction objects, an independent hashlib double-SHA-256 tree, and a real Headers object whose '
+      'chain was stored by Headers.connect; tx.is_verified, tx.position and tx.height must equal the specification\'s verdict.',
+      'Trusted: double-SHA-256 collision freedom and that a txid never equals an inner node; mutation=>rejection judged modulo symbolic fold '
+      'equality (DESIGN 8: position bits above the branch and right-edge nodes paired with their own duplicate are accepted); local chain validated '
+      'for linkage only (PoW is C07); claim_proofs.verify_proof (legacy, uncalled) not covered.',
+      'case-analytic TLA+ Merkle/SPV spec, TLC-enumerated proofs and mutations replayed into the real Ledger/Headers', 'DESIGN.md 5/C08')
+
 NOT_YET = 'check not built yet in this round (design in DESIGN.md section 5); will be claimed once its driver exists'
 ALL = [f'C{i:02d}' for i in range(1, 21)]
 
